@@ -383,6 +383,10 @@ def build_case(w, prog, log, clock, scratch, sink_factory, hints=()):
     def call_fn(fn=None):
         return fn()
 
+    def call_kw(**kw):      # (a cleanup whose one keyword argument may have ANY name)
+        (thunk,) = kw.values()
+        return thunk()
+
     def run_stage(case, st, upcall=None):
         _, sid, acts, term = st
         clock.t += 1
@@ -401,6 +405,11 @@ def build_case(w, prog, log, clock, scratch, sink_factory, hints=()):
             if k == 'cleanup' and ['kwfn', a[1][1]] in hints:
                 # realisation hint ['kwfn', id of the cleanup stage]: the cleanup takes a keyword argument called fn
                 case.addCleanup(call_fn, fn=(lambda _c=a[1]: run_stage(case, _c)))
+            elif k == 'cleanup' and any(isinstance(h, list) and len(h) == 3 and h[:2] == ['kwfn', a[1][1]] for h in hints):
+                # ['kwfn', id, name]: ... called `name`, one of the parameter names of the functions the keyword travels through
+                # (harness/kwnames.py: addCleanup, _run_cleanups, _run_user, ... - a name collides unless that parameter is positional-only)
+                name = [h[2] for h in hints if isinstance(h, list) and len(h) == 3 and h[:2] == ['kwfn', a[1][1]]][0]
+                case.addCleanup(call_kw, **{name: (lambda _c=a[1]: run_stage(case, _c))})
             elif k == 'cleanup':
                 case.addCleanup(run_stage, case, a[1])
             elif k == 'addDetail':
@@ -886,7 +895,9 @@ def gen_input(rng, focus='all'):
     for st in all_stages(prog):
         for a in st[2]:
             if a[0] == 'cleanup' and rng.random() < 0.15:
-                hints.append(['kwfn', a[1][1]])
+                from harness import kwnames
+                name = rng.choice(['fn'] + kwnames.names())
+                hints.append(['kwfn', a[1][1]] if name == 'fn' else ['kwfn', a[1][1], name])
     if rng.random() < 0.2:
         tags = [st[3][1][1] for st in all_stages(prog) if isinstance(st[3], list) and st[3][0] == 'raise1' and st[3][1][0] == 'skip']
         if prog[1] is not None:
